@@ -105,6 +105,29 @@ def handle (args : List String) : String :=
       let T1 : Nat → Nat → Nat → GInt := fun a b c => a1.getD ((a * dB + b) * dC + c) 0
       let T2 : Nat → Nat → Nat → GInt := fun a b c => a2.getD ((a * dB + b) * dC + c) 0
       return gintListStr (abcVecScaled dA dB dC T1 T2)
+  | ["abcveck", dA, dB, dC, n, idx, ts] => Id.run do
+      -- level-k vector of the tripartite test for the sorted multi-index `idx`; `ts` = the `n` tensors separated by `|`
+      let some dA := dA.toNat? | return "bad-op"
+      let some dB := dB.toNat? | return "bad-op"
+      let some dC := dC.toNat? | return "bad-op"
+      let some n := n.toNat? | return "bad-op"
+      let some idx := parseNatList? idx | return "bad-op"
+      let some tl := (ts.splitOn "|").mapM parseGIntList? | return "bad-op"
+      if idx.length < 2 || dA = 0 || dB = 0 || dC = 0 || tl.length ≠ n || tl.any (·.length ≠ dA * dB * dC) || idx.any (· ≥ n) then return "bad-op"
+      if dA * dB * dC > 40 || idx.length > 5 then return "bad-op"
+      let arrs := (tl.map List.toArray).toArray
+      let T : Nat → Nat → Nat → Nat → GInt := fun g a b c => (arrs.getD g #[]).getD ((a * dB + b) * dC + c) 0
+      return gintListStr (abcLevelVecScaled dA dB dC n T idx)
+  | ["asbasis", d, r] => Id.run do
+      let some d := d.toNat? | return "bad-op"
+      let some r := r.toNat? | return "bad-op"
+      if r = 0 || r > d || d ^ r > 5000 then return "bad-op"
+      return "|".intercalate ((antisymBasisDense d r).map intListStr)
+  | ["symbasis", d, r] => Id.run do
+      let some d := d.toNat? | return "bad-op"
+      let some r := r.toNat? | return "bad-op"
+      if r = 0 || d = 0 || d ^ r > 5000 then return "bad-op"
+      return "|".intercalate ((symBasisDense d r).map fun row => intListStr (row.map Int.ofNat))
   | ["matabc", cut, dA, dB, dC, t] => Id.run do
       -- the two matricisations of a (dA,dB,dC) tensor, row-major
       let some dA := dA.toNat? | return "bad-op"
